@@ -27,7 +27,13 @@ type c10Loop struct {
 
 func newC10Loop() *c10Loop {
 	l := &c10Loop{out: make(chan *Message, 8)}
-	l.u = &UDPServerTransport{msgParseChannel: make(chan SizedByteArray, 8), msgBufPool: NewByteArrayPool(4, 64*1024)}
+	// the product's own constructor (no socket is opened before Start); only the
+	// parse loop is started
+	u, err := NewUDPServerTransport("127.0.0.1", 0, true, NewSelfLearnRoute())
+	if err != nil {
+		panic("verif harness: " + err.Error())
+	}
+	l.u = u
 	go l.u.startParseMessage()
 	return l
 }
